@@ -276,9 +276,11 @@ pub fn spaces(tier: Tier) -> Vec<Space<'static>> {
     // texts whose numbers have a spelling the model printer never writes (-0, exponent forms, padded
     // fractions): what they denote decides (one zero, whatever its sign was written as)
     {
-        let raw: Vec<&str> = vec!["[0,-0]", "[-0,0,0.0]", "-0", "0", "[[-0],[0]]", "[1e0,1,1.0,10e-1]", "[1.50,1.5,15e-1]", "[{\"a\":-0},{\"a\":0}]", "[-0.0,0.0,-0]"];
+        let raw: Vec<&str> = vec!["[0,-0]", "[-0,0,0.0]", "-0", "0", "[[-0],[0]]", "[1e0,1,1.0,10e-1]", "[1.50,1.5,15e-1]", "[{\"a\":-0},{\"a\":0}]", "[-0.0,0.0,-0]",
+            // strings in spellings the printer never writes: the optional \/ escape, \u escapes of plain characters
+            "[\"\\/\",\"/\",\".\"]", "[\"a\\/b\",\"a/b\",\"a.b\"]", "\"\\/\"", "\"/\"", "[{\"\\/\":1},{\"/\":1},{\".\":1}]", "[\"\\u002f\",\"/\"]", "[\"\\u0041\",\"A\",\"a\"]", "[\"\\n\",\"\\u000a\",\"n\"]", "[\"\\u00e9\",\"\u{e9}\",\"e\"]"];
         let items: Arc<Vec<(String, RVal)>> = Arc::new(raw.into_iter().map(|s| (s.to_string(), refmodel::text::relaxed_json(s.as_bytes()).expect("model parses").val)).collect());
-        sp.push(Space::new("texts with number spellings the printer never writes (-0, exponents, padded fractions)", items.len() as u64, move |i, acc| {
+        sp.push(Space::new("texts with number and string spellings the printer never writes (-0, exponents, padded fractions; \\/ and \\u escapes of plain characters)", items.len() as u64, move |i, acc| {
             let (si, vi) = &items[i as usize];
             let ctx = || json!({"a_text": si});
             acc.nontrivial += 1;
@@ -318,6 +320,20 @@ pub fn spaces(tier: Tier) -> Vec<Space<'static>> {
                 other => acc.vio("overlap:differs-from-multiset-model", || json!({"N": n, "observed": format!("{:?}", other)})),
             }
         }
+    }));
+    // results whose element count crosses 2^16: N distinct numbers (so the expected results are the list
+    // itself, or empty, by construction) through distinct, intersection with itself, except against [] and itself
+    sp.push(Space::new("results of 2^16 elements and more (N distinct numbers)", 4, |i, acc| {
+        let n = [65535usize, 65536, 65537, 70000][i as usize];
+        let a = RVal::Arr((0..n).map(|k| RVal::u(k as u64)).collect());
+        let empty = RVal::Arr(vec![]);
+        let (ab, eb) = (enc(&a), enc(&empty));
+        let ctx = || json!({"N": n});
+        acc.nontrivial += 1;
+        call("distinct", |buf| jsonb::array_distinct(&ab, buf), &a, acc, &ctx);
+        call("intersection", |buf| jsonb::array_intersection(&ab, &ab, buf), &a, acc, &ctx);
+        call("except", |buf| jsonb::array_except(&ab, &eb, buf), &a, acc, &ctx);
+        call("except", |buf| jsonb::array_except(&ab, &ab, buf), &empty, acc, &ctx);
     }));
     sp
 }
